@@ -73,7 +73,7 @@ pub const OPS: &[&str] = &["add", "sub", "mul", "div", "fma", "sqrt", "quantize"
     "minnum", "maxnum", "minmag", "maxmag", "scaleb", "ldexp", "scalebln", "logb", "ilogb", "quantexp", "llquantexp", "quantum",
     "samequantum", "totalorder", "totalordermag", "class", "isx", "abs", "neg", "copy", "copysign", "encode", "decode",
     "from_f32", "from_f64", "from_i32", "from_u32", "from_i64", "from_u64", "lrint", "llrint", "lround", "llround", "cmp", "ops",
-    "to_*", "parse", "fromstr", "fromstr2", "fmt", "hash", "hashslice", "o_add", "o_sub", "o_mul", "o_div", "o_rem", "o_neg", "sum", "product",
+    "to_*", "parse", "fromstr", "fromstr2", "fmt", "hash", "hasheq", "hashset", "hashslice", "o_add", "o_sub", "o_mul", "o_div", "o_rem", "o_neg", "sum", "product",
     "fromf32_t", "fromf64_t", "serde", "nan", "consts", "macro"];
 
 fn run_case(t: &[&str]) -> (String, F) {
@@ -174,12 +174,10 @@ fn run_case(t: &[&str]) -> (String, F) {
         "llrint" => a[0].llrint(md, &mut f) as u64 as u128,
         "lround" => a[0].lround(&mut f) as u64 as u128,
         "llround" => a[0].llround(&mut f) as u64 as u128,
-        "cmp" => {
-            // all 20 predicates, each started from status f0; 20-bit result mask + 20 x 6 status bits
-            let mut mask = 0u128; let mut fl = 0u128;
-            for (i, g) in CMPS.iter().enumerate() { let mut ff = f0; if g(&a[0], &a[1], &mut ff) { mask |= 1 << i; } fl |= ((ff as u128) & 0x3f) << (6 * i); }
-            return (format!("{:x} {:x}", mask, fl), f)
-        }
+        "cmp" => { let i = raw[2] as usize; b(CMPS[i](&a[0], &a[1], &mut f)) }
+        "hasheq" => { let mut r1 = Rec(vec![]); std::hash::Hash::hash(&a[0], &mut r1); let mut r2 = Rec(vec![]); std::hash::Hash::hash(&a[1], &mut r2); b(r1.0 == r2.0) }
+        "hashset" => { let mut hs = std::collections::HashSet::new(); hs.insert(a[0]); let mut hm = std::collections::HashMap::new(); hm.insert(a[0], 1u8);
+            let c1 = hs.contains(&a[1]); let c2 = hm.contains_key(&a[1]); if c1 != c2 { 2 } else { b(c1) } }
         "ops" => { let (x, y) = (a[0], a[1]);
             b(x == y) | b(x < y) << 1 | b(x <= y) << 2 | b(x > y) << 3 | b(x >= y) << 4
             | (match x.partial_cmp(&y) { None => 0, Some(std::cmp::Ordering::Less) => 1, Some(std::cmp::Ordering::Equal) => 2, Some(std::cmp::Ordering::Greater) => 3 }) << 5
